@@ -1,0 +1,398 @@
+//! Verification hooks, compiled only with the `verif` cargo feature.
+//!
+//! This module shadows the few `core`/`std` items kanal synchronises with
+//! (atomics, fences, `park`/`unpark`, `yield_now`, `spin_loop`, `sleep`,
+//! `Instant`, `available_parallelism`) by thin wrappers that report to an
+//! installable [`Runtime`].  With no runtime installed, or when the calling
+//! thread is not managed by the runtime, every wrapper behaves exactly like
+//! the item it wraps, so the crate stays fully usable with the feature on.
+#![allow(missing_docs, missing_debug_implementations, dead_code)]
+
+use ::core::sync::atomic::{AtomicPtr, Ordering as O};
+
+/// Kind of atomic access reported to the runtime.
+#[derive(Clone, Copy, Debug, PartialEq, Eq)]
+#[repr(u8)]
+pub enum AtomicOp {
+    Load,
+    Store,
+    /// compare_exchange
+    Cas,
+    /// fetch_add / swap style unconditional read-modify-write
+    Rmw,
+}
+
+/// Note kinds (classification / timestamps only).
+pub mod notes {
+    pub const REGISTER_SEND: u32 = 1;
+    pub const REGISTER_RECV: u32 = 2;
+    pub const HANDOFF_WRITE: u32 = 3;
+    pub const HANDOFF_READ: u32 = 4;
+    pub const TERMINATE: u32 = 5;
+    pub const PARKED: u32 = 6;
+    pub const WAKE_SYNC_FAST: u32 = 7;
+    pub const WAKE_SYNC_UNPARK: u32 = 8;
+    pub const WAKE_ASYNC: u32 = 9;
+    pub const LOCK_ACQUIRED: u32 = 10;
+    pub const TRY_LOCK_ACQUIRED: u32 = 11;
+    pub const TRY_LOCK_FAILED: u32 = 12;
+    pub const CANCEL_OK: u32 = 13;
+    pub const CANCEL_FAILED: u32 = 14;
+    pub const REFILL: u32 = 15;
+}
+
+/// The interface a controlling runtime implements.  Every method is called
+/// on the thread performing the shimmed operation.
+pub trait Runtime: Sync {
+    /// True if the calling OS thread is managed (a "virtual thread").
+    fn managed(&self) -> bool;
+    /// Scheduling point before an atomic access.
+    fn atomic_pre(&self, addr: usize, op: AtomicOp, ord: O);
+    /// Report after the access: `success` (false only for a failed CAS), the
+    /// ordering that applied (`ord` on success, failure ordering otherwise)
+    /// and the value read / written (zero-extended).
+    fn atomic_post(&self, addr: usize, op: AtomicOp, success: bool, ord: O, old: u64, new: u64);
+    fn fence(&self, ord: O);
+    fn park(&self);
+    fn unpark(&self, vid: u32);
+    fn current_vid(&self) -> u32;
+    fn yield_now(&self);
+    fn spin_loop(&self);
+    fn sleep(&self, nanos: u64);
+    /// Virtual time in nanoseconds.
+    fn now(&self) -> u64;
+    fn parallelism(&self) -> usize;
+    fn read(&self, addr: usize, len: usize);
+    fn write(&self, addr: usize, len: usize);
+    /// A signal (and, for messages larger than a pointer, its slot) becomes
+    /// reachable by other threads.
+    fn publish(&self, sig: usize, sig_len: usize, slot: usize, slot_len: usize);
+    /// End of life of a signal.
+    fn retire(&self, sig: usize, sig_len: usize);
+    fn note(&self, kind: u32, arg: usize);
+}
+
+static RT: AtomicPtr<&'static dyn Runtime> = AtomicPtr::new(::core::ptr::null_mut());
+
+/// Installs the runtime for the whole process (idempotent: last wins).
+pub fn install(rt: &'static dyn Runtime) {
+    let b: &'static mut &'static dyn Runtime = Box::leak(Box::new(rt));
+    RT.store(b as *mut _, O::SeqCst);
+}
+
+#[inline(always)]
+fn raw_rt() -> Option<&'static dyn Runtime> {
+    let p = RT.load(O::Relaxed);
+    if p.is_null() {
+        return None;
+    }
+    Some(unsafe { *p })
+}
+
+#[inline(always)]
+fn rt() -> Option<&'static dyn Runtime> {
+    match raw_rt() {
+        Some(r) if r.managed() => Some(r),
+        _ => None,
+    }
+}
+
+#[inline(always)]
+pub fn read(addr: usize, len: usize) {
+    if let Some(r) = rt() {
+        r.read(addr, len)
+    }
+}
+#[inline(always)]
+pub fn write(addr: usize, len: usize) {
+    if let Some(r) = rt() {
+        r.write(addr, len)
+    }
+}
+#[inline(always)]
+pub fn publish(sig: usize, sig_len: usize, slot: usize, slot_len: usize) {
+    if let Some(r) = rt() {
+        r.publish(sig, sig_len, slot, slot_len)
+    }
+}
+#[inline(always)]
+pub fn retire(sig: usize, sig_len: usize) {
+    if let Some(r) = rt() {
+        r.retire(sig, sig_len)
+    }
+}
+#[inline(always)]
+pub fn note(kind: u32, arg: usize) {
+    if let Some(r) = rt() {
+        r.note(kind, arg)
+    }
+}
+
+/// Re-export of the channel's internal lock for the lock fuzzer.
+#[cfg(not(feature = "std-mutex"))]
+pub use crate::mutex::{Mutex, MutexGuard, RawMutexLock};
+
+/// Clears the cached parallelism so one process can test several values.
+pub fn reset_parallelism() {
+    crate::backoff::verif_reset_parallelism();
+}
+
+/// Shadow of `core`: everything from the real crate except the atomics.
+pub mod core {
+    pub use ::core::*;
+    pub mod sync {
+        pub use ::core::sync::*;
+        pub mod atomic {
+            pub use ::core::sync::atomic::Ordering;
+            use super::super::super::{rt, AtomicOp};
+            use ::core::sync::atomic as real;
+
+            #[inline(always)]
+            pub fn fence(ord: Ordering) {
+                if let Some(r) = rt() {
+                    r.fence(ord);
+                }
+                real::fence(ord)
+            }
+
+            macro_rules! shim_atomic {
+                ($name:ident, $real:ident, $t:ty) => {
+                    #[repr(transparent)]
+                    pub struct $name {
+                        inner: real::$real,
+                    }
+                    impl $name {
+                        #[inline(always)]
+                        pub const fn new(v: $t) -> Self {
+                            Self {
+                                inner: real::$real::new(v),
+                            }
+                        }
+                        #[inline(always)]
+                        fn addr(&self) -> usize {
+                            self as *const Self as usize
+                        }
+                        #[inline(always)]
+                        pub fn load(&self, ord: Ordering) -> $t {
+                            match rt() {
+                                None => self.inner.load(ord),
+                                Some(r) => {
+                                    r.atomic_pre(self.addr(), AtomicOp::Load, ord);
+                                    let v = self.inner.load(ord);
+                                    r.atomic_post(
+                                        self.addr(),
+                                        AtomicOp::Load,
+                                        true,
+                                        ord,
+                                        v as u64,
+                                        v as u64,
+                                    );
+                                    v
+                                }
+                            }
+                        }
+                        #[inline(always)]
+                        pub fn store(&self, v: $t, ord: Ordering) {
+                            match rt() {
+                                None => self.inner.store(v, ord),
+                                Some(r) => {
+                                    r.atomic_pre(self.addr(), AtomicOp::Store, ord);
+                                    let old = self.inner.load(Ordering::Relaxed);
+                                    self.inner.store(v, ord);
+                                    r.atomic_post(
+                                        self.addr(),
+                                        AtomicOp::Store,
+                                        true,
+                                        ord,
+                                        old as u64,
+                                        v as u64,
+                                    );
+                                }
+                            }
+                        }
+                        #[inline(always)]
+                        pub fn compare_exchange(
+                            &self,
+                            current: $t,
+                            new: $t,
+                            success: Ordering,
+                            failure: Ordering,
+                        ) -> Result<$t, $t> {
+                            match rt() {
+                                None => self.inner.compare_exchange(current, new, success, failure),
+                                Some(r) => {
+                                    r.atomic_pre(self.addr(), AtomicOp::Cas, success);
+                                    let res =
+                                        self.inner.compare_exchange(current, new, success, failure);
+                                    match res {
+                                        Ok(old) => r.atomic_post(
+                                            self.addr(),
+                                            AtomicOp::Cas,
+                                            true,
+                                            success,
+                                            old as u64,
+                                            new as u64,
+                                        ),
+                                        Err(old) => r.atomic_post(
+                                            self.addr(),
+                                            AtomicOp::Cas,
+                                            false,
+                                            failure,
+                                            old as u64,
+                                            old as u64,
+                                        ),
+                                    }
+                                    res
+                                }
+                            }
+                        }
+                    }
+                };
+            }
+            macro_rules! shim_fetch_add {
+                ($name:ident, $t:ty) => {
+                    impl $name {
+                        #[inline(always)]
+                        pub fn fetch_add(&self, v: $t, ord: Ordering) -> $t {
+                            match rt() {
+                                None => self.inner.fetch_add(v, ord),
+                                Some(r) => {
+                                    r.atomic_pre(self.addr(), AtomicOp::Rmw, ord);
+                                    let old = self.inner.fetch_add(v, ord);
+                                    r.atomic_post(
+                                        self.addr(),
+                                        AtomicOp::Rmw,
+                                        true,
+                                        ord,
+                                        old as u64,
+                                        old.wrapping_add(v) as u64,
+                                    );
+                                    old
+                                }
+                            }
+                        }
+                    }
+                };
+            }
+            shim_atomic!(AtomicBool, AtomicBool, bool);
+            shim_atomic!(AtomicU8, AtomicU8, u8);
+            shim_atomic!(AtomicU32, AtomicU32, u32);
+            shim_atomic!(AtomicUsize, AtomicUsize, usize);
+            shim_fetch_add!(AtomicU8, u8);
+            shim_fetch_add!(AtomicU32, u32);
+            shim_fetch_add!(AtomicUsize, usize);
+        }
+    }
+}
+
+/// Shadow of `std`: everything from the real crate except the blocking /
+/// timing primitives kanal waits with.
+pub mod std {
+    pub use ::std::*;
+    pub mod hint {
+        pub use ::std::hint::*;
+        #[inline(always)]
+        pub fn spin_loop() {
+            match super::super::rt() {
+                None => ::std::hint::spin_loop(),
+                Some(r) => r.spin_loop(),
+            }
+        }
+    }
+    pub mod time {
+        pub use ::std::time::*;
+
+        /// `Instant` that reads the runtime's virtual clock on managed
+        /// threads and the real clock otherwise.
+        #[derive(Clone, Copy, Debug, PartialEq, Eq, PartialOrd, Ord)]
+        pub enum Instant {
+            Real(::std::time::Instant),
+            Virtual(u64),
+        }
+        impl Instant {
+            #[inline(always)]
+            pub fn now() -> Self {
+                match super::super::rt() {
+                    None => Instant::Real(::std::time::Instant::now()),
+                    Some(r) => Instant::Virtual(r.now()),
+                }
+            }
+            #[inline(always)]
+            pub fn checked_add(&self, d: Duration) -> Option<Self> {
+                match self {
+                    Instant::Real(i) => i.checked_add(d).map(Instant::Real),
+                    Instant::Virtual(t) => {
+                        let n = d.as_nanos();
+                        if n > (u64::MAX / 4) as u128 {
+                            return Some(Instant::Virtual(u64::MAX / 2));
+                        }
+                        Some(Instant::Virtual(t.saturating_add(n as u64)))
+                    }
+                }
+            }
+        }
+    }
+    pub mod thread {
+        pub use ::std::thread::{Builder, JoinHandle};
+        use ::core::num::NonZeroUsize;
+        use ::core::time::Duration;
+
+        /// Handle to a thread; managed threads carry their virtual id.
+        #[derive(Clone, Debug)]
+        pub struct Thread {
+            real: ::std::thread::Thread,
+            vid: u32,
+        }
+        impl Thread {
+            #[inline(always)]
+            pub fn unpark(&self) {
+                if self.vid != u32::MAX {
+                    // a managed thread is woken through the runtime whoever calls
+                    if let Some(r) = super::super::raw_rt() {
+                        return r.unpark(self.vid);
+                    }
+                }
+                self.real.unpark()
+            }
+        }
+        #[inline(always)]
+        pub fn current() -> Thread {
+            let vid = match super::super::rt() {
+                None => u32::MAX,
+                Some(r) => r.current_vid(),
+            };
+            Thread {
+                real: ::std::thread::current(),
+                vid,
+            }
+        }
+        #[inline(always)]
+        pub fn park() {
+            match super::super::rt() {
+                None => ::std::thread::park(),
+                Some(r) => r.park(),
+            }
+        }
+        #[inline(always)]
+        pub fn yield_now() {
+            match super::super::rt() {
+                None => ::std::thread::yield_now(),
+                Some(r) => r.yield_now(),
+            }
+        }
+        #[inline(always)]
+        pub fn sleep(d: Duration) {
+            match super::super::rt() {
+                None => ::std::thread::sleep(d),
+                Some(r) => r.sleep(d.as_nanos().min(u64::MAX as u128 / 4) as u64),
+            }
+        }
+        #[inline(always)]
+        pub fn available_parallelism() -> ::std::io::Result<NonZeroUsize> {
+            match super::super::rt() {
+                None => ::std::thread::available_parallelism(),
+                Some(r) => Ok(NonZeroUsize::new(r.parallelism().max(1)).unwrap()),
+            }
+        }
+    }
+}
